@@ -419,6 +419,27 @@ def _git_argv():
                         elif got != int(count.strip()) or isinstance(got, bool):
                             a.fail("get_distance_result", "get_distance-wrong-result", inp,
                                    int(count.strip()), got)
+            # C17: EVERY git command of the class runs in the project root (never in the invocation directory), whatever
+            # it is asked: the symbol of --at-least / --this-commit, HEAD, the dirty flag, "is git used"
+            others = [("is_used", (), ["git", "rev-parse", "--git-dir"]), ("current_commit", (), None)]
+            others += [("rev_parse", (sym,), ["git", "rev-parse", sym]) for sym in hashes]
+            for meth, margs, exp_argv in others:
+                for rc in (0, 1):
+                    inp = {"fn": meth, "args": list(margs), "git_exit_code": rc, "project_root": str(root)}
+                    del calls[:]
+                    state.update(rc=rc, stdout="abc123\n")
+                    getattr(git, meth)(*margs)
+                    a.ev += 1
+                    a.nt += 1
+                    if not calls:
+                        a.fail(meth + "_runs_git", meth + "-runs-no-git-command", inp, "a git command", [])
+                        continue
+                    if exp_argv is not None and calls[0][0] != exp_argv:
+                        a.fail(meth + "_argv", meth + "-wrong-argv", inp, exp_argv, [c[0] for c in calls])
+                        continue
+                    bad = [c for c in calls if c[1].get("cwd") is None or pathlib.Path(c[1].get("cwd")) != root]
+                    if bad:
+                        a.fail(meth + "_cwd", "git-not-run-in-project-root", inp, str(root), [(c[0], str(c[1].get("cwd"))) for c in bad])
     return a
 
 
@@ -651,7 +672,7 @@ def run(tier, seed):
                     "task_types/run.py::RunExperiment.get_output_path", scope, True,
                     "distinct (DAG, git, HEAD, version list); non-trivial = some version is selected",
                     wall_sel),
-        argv.result("C05.git_argv", "C05", "utils/git.py::Git.is_ancestor,Git.get_distance",
+        argv.result("C05.git_argv", ["C05", "C17"], "utils/git.py::Git.{is_used,current_commit,rev_parse,is_ancestor,get_distance}",
                     "2 project roots x 5x5 commit symbols x git exit codes {0,1,128} (is_ancestor) / "
                     "stdout {'0','3',' 12 '} (get_distance); subprocess.run recorded", True,
                     "distinct (function, root, two symbols, git answer); non-trivial = the two symbols differ",
